@@ -9,8 +9,18 @@ existing = [int(os.path.basename(x).split("-")[1]) for x in glob.glob(os.path.jo
 offset = int(sys.argv[3]) if len(sys.argv) > 3 else (max(existing) if existing and len(sys.argv) > 2 else 0)
 def _body(path):
     """the changed lines of a patch, whitespace-normalised: two deliveries with the same body are the same change"""
-    return tuple(" ".join(l.split()) for l in open(path, errors="replace") if l[:1] in "+-" and not l.startswith(("+++", "---")) and l[1:].strip()
-                 and not l[1:].strip().startswith("#"))
+    out, cur = [], ""
+    for l in open(path, errors="replace"):
+        if l.startswith("+++ "):
+            cur = l[4:].strip()
+        elif l.startswith("@@"):
+            # where the hunk is: the enclosing definition (stable across fix commits); in the table file, where every hunk has the same
+            # context, the line number
+            ctx = l.split("@@")[2].strip() if l.count("@@") >= 2 else ""
+            out.append((cur, l.split()[1] if cur.endswith("symmetry_data.py") else ctx))
+        elif l[:1] in "+-" and not l.startswith(("+++", "---")) and l[1:].strip() and not l[1:].strip().startswith("#"):
+            out.append(" ".join(l.split()))
+    return tuple(out)
 
 
 known = {}
